@@ -121,6 +121,7 @@ func Check(prop, tier string) int {
 	})
 
 	var found []common.Found
+	var infraNotes []string
 	ran, steps := 0, 0
 	var samples []interface{}
 	for i, r := range results {
@@ -129,8 +130,9 @@ func Check(prop, tier string) int {
 		}
 		ran++
 		if r.out.Infra != "" {
-			writeEvidence(e, prop, tier, seed, start, ran, steps, samples, 0, "infrastructure trouble: "+r.out.Infra)
-			common.Infra("case %d: %s", i, r.out.Infra)
+			// harness trouble in one case must not hide a reproducible violation found in another: noted, decided at the end
+			infraNotes = append(infraNotes, fmt.Sprintf("case %d: %s", i, r.out.Infra))
+			continue
 		}
 		steps += r.out.Steps
 		if len(samples) < 3 {
@@ -215,8 +217,9 @@ func Check(prop, tier string) int {
 				continue
 			}
 			if r.out.Infra != "" {
-				writeEvidence(e, prop, tier, seed, start, ran, steps, samples, 0, "infrastructure trouble: "+r.out.Infra)
-				common.Infra("enumerated fault case %d (base %d): %s", i, owner[i], r.out.Infra)
+				// harness trouble in one case must not hide a reproducible violation found in another: noted, decided at the end
+				infraNotes = append(infraNotes, fmt.Sprintf("enumerated fault case %d (base %d): %s", i, owner[i], r.out.Infra))
+				continue
 			}
 			ran++
 			steps += r.out.Steps
@@ -254,8 +257,9 @@ func Check(prop, tier string) int {
 				continue
 			}
 			if r.out.Infra != "" {
-				writeEvidence(e, prop, tier, seed, start, ran, steps, samples, 0, "infrastructure trouble: "+r.out.Infra)
-				common.Infra("evolve case %d: %s", i, r.out.Infra)
+				// harness trouble in one case must not hide a reproducible violation found in another: noted, decided at the end
+				infraNotes = append(infraNotes, fmt.Sprintf("evolve case %d: %s", i, r.out.Infra))
+				continue
 			}
 			ran++
 			steps += r.out.Steps
@@ -314,8 +318,9 @@ func Check(prop, tier string) int {
 				continue
 			}
 			if r.out.Infra != "" {
-				writeEvidence(e, prop, tier, seed, start, ran, steps, samples, 0, "infrastructure trouble: "+r.out.Infra)
-				common.Infra("agreement case %d: %s", i, r.out.Infra)
+				// harness trouble in one case must not hide a reproducible violation found in another: noted, decided at the end
+				infraNotes = append(infraNotes, fmt.Sprintf("agreement case %d: %s", i, r.out.Infra))
+				continue
 			}
 			ran++
 			steps += r.out.Steps
@@ -331,8 +336,9 @@ func Check(prop, tier string) int {
 				continue
 			}
 			if r.out.Infra != "" {
-				writeEvidence(e, prop, tier, seed, start, ran, steps, samples, 0, "infrastructure trouble: "+r.out.Infra)
-				common.Infra("show case %d: %s", i, r.out.Infra)
+				// harness trouble in one case must not hide a reproducible violation found in another: noted, decided at the end
+				infraNotes = append(infraNotes, fmt.Sprintf("show case %d: %s", i, r.out.Infra))
+				continue
 			}
 			ran++
 			steps += r.out.Steps
@@ -422,7 +428,16 @@ func Check(prop, tier string) int {
 		reps = append(reps, f)
 	}
 	unlisted, _ := common.Report(prop, "C", seed, reps)
-	writeEvidence(e, prop, tier, seed, start, ran, steps, samples, unlisted, "")
+	if len(infraNotes) > 0 && unlisted == 0 {
+		writeEvidence(e, prop, tier, seed, start, ran, steps, samples, 0, "infrastructure trouble: "+strings.Join(infraNotes, "; "))
+		common.Infra("%s", strings.Join(infraNotes, "; "))
+	}
+	note := ""
+	if len(infraNotes) > 0 {
+		note = fmt.Sprintf("%d case(s) ended in harness trouble and were not judged: %s", len(infraNotes), strings.Join(infraNotes, "; "))
+		fmt.Println("note:", note)
+	}
+	writeEvidence(e, prop, tier, seed, start, ran, steps, samples, unlisted, note)
 	fmt.Printf("%s: %d histories, %d steps, %d wire processes, %d distinct (state,command,fault) triples, %d distinct schedules, %d unlisted violation(s), %.0fs\n",
 		prop, ran, steps, total(e.Stats.Commands.Map()), e.Stats.States.Len(), e.Stats.Schedules.Len(), unlisted, time.Since(start).Seconds())
 	if unlisted > 0 {
